@@ -236,7 +236,7 @@ InvB_C02 == AtBoundary => Inv_C02
 InvB_C07 == AtBoundary => Inv_C07
 InvB_C17 == AtBoundary => Inv_C17
 
-Step_C18 == ph \in {"upd", "instr"} => \A v \in Vehicles : C18_Step(S0, S1, v, VLess, "") = {}
+Step_C18 == ph \in {"upd", "instr"} => \A v \in Vehicles : C18_Step(S0, S1, v, VLess, "") = {} /\ C18_Join(S0, S1, v) = {}
 Step_C03 == ph = "instr" => \A v \in Vehicles : C03_NoDivert(S0, S1, v) = {}
 Step_C10 == C10_Step(S0, S1) = {}
 Prop_C18 == [][Step_C18]_vars
